@@ -30,6 +30,23 @@ for f in conf:
         t = open(f).read()
         t = "\n".join(l for l in t.split("\n") if not (l.startswith("<<<<<<< ") or l.strip() == "=======" or l.startswith(">>>>>>> ")))
         open(f, "w").write(t); sh("git", "add", f)
+    elif f.startswith("harness/claims/") and f.endswith(".json"):
+        # both sides extended a claim text: the branch's text followed by our suffix
+        def show(rev):
+            return json.loads(sh("git", "show", f"{rev}:{f}").stdout)
+        base_rev = sh("git", "merge-base", "HEAD", br).stdout.strip()
+        ours, theirs, base = show("HEAD"), show(br), show(base_rev)
+        out = dict(theirs)
+        for k in ours:
+            if ours[k] != base.get(k) and theirs.get(k) == base.get(k):
+                out[k] = ours[k]
+            elif ours[k] != base.get(k) and theirs.get(k) != base.get(k) and isinstance(ours[k], str):
+                b = base.get(k, ""); i = 0
+                while i < min(len(b), len(ours[k])) and b[i] == ours[k][i]:
+                    i += 1
+                suf = ours[k][i:].strip()
+                out[k] = theirs[k] + " " + suf if suf and suf not in theirs[k] else theirs[k]
+        json.dump(out, open(f, "w"), indent=1); sh("git", "add", f)
     else:
         print("UNRESOLVED:", f)
 left = sh("git", "diff", "--name-only", "--diff-filter=U").stdout.split()
